@@ -1,13 +1,15 @@
 // Driver c15: leader hand-over on real Backends.
 // For a generated write history H (with bursts of failing writes) and every stop point i:
-//   fresh engine E; Backend 1 (identity A) becomes leader exactly as leader.go does it
-//   (lock Get -> NotFound -> Create -> Describe() -> split/parse -> SetCurrentRevision);
-//   H[:i] runs through Backend 1; Backend 1 stops (Badger: the store is closed and the SAME
-//   directory reopened = restart; memkv / TiKV mock: the same store object = fail-over);
-//   Backend 2 (identity B) becomes leader (lock Get -> Update -> Describe -> parse ->
-//   SetCurrentRevision); the raw engine content is dumped and decoded; then the new leader serves
-//   List(0), a guarded Update/Delete of every pre-existing key with its true revision, creates of
-//   fresh keys (at least three requests in all), and List(0) again.
+//
+//	fresh engine E; Backend 1 (identity A) becomes leader exactly as leader.go does it
+//	(lock Get -> NotFound -> Create -> Describe() -> split/parse -> SetCurrentRevision);
+//	H[:i] runs through Backend 1; Backend 1 stops (Badger: the store is closed and the SAME
+//	directory reopened = restart; memkv / TiKV mock: the same store object = fail-over);
+//	Backend 2 (identity B) becomes leader (lock Get -> Update -> Describe -> parse ->
+//	SetCurrentRevision); the raw engine content is dumped and decoded; then the new leader serves
+//	List(0), a guarded Update/Delete of every pre-existing key with its true revision, creates of
+//	fresh keys (at least three requests in all), and List(0) again.
+//
 // Every action and what it returned becomes one element of a Coq script (Model/C15Cases.v).
 package main
 
@@ -91,12 +93,21 @@ func bytesCoq(b []byte) string {
 // ---------- a process: Backend + tap ----------
 
 type proc struct {
-	n      int
-	id     string
-	b      backend.Backend
-	tap    *lib.ElTap
-	expect uint64 // committed revision the sequencer must reach
-	seq    int
+	n   int
+	id  string
+	b   backend.Backend
+	tap *lib.ElTap
+	// the node's revision counters as tso.go maintains them (predicted; only used to know whether the sequencer can follow)
+	deal, committed uint64
+	seq             int
+}
+
+// setCurrent mirrors tso.Commit: committed := v, the dealt counter is raised to v if it is lower.
+func (p *proc) setCurrent(v uint64) {
+	p.committed = v
+	if p.deal < v {
+		p.deal = v
+	}
 }
 
 func newProc(n int, id string, kv storage.KvStorage) *proc {
@@ -114,10 +125,10 @@ type stepObs struct {
 }
 
 type runner struct {
-	eng    string
-	kv     storage.KvStorage
-	steps  []stepObs
-	fail   string
+	eng      string
+	kv       storage.KvStorage
+	steps    []stepObs
+	fail     string
 	failCode int
 	// last hand-over facts, for classification
 	lastBase uint64
@@ -125,7 +136,11 @@ type runner struct {
 }
 
 // elect: one tryAcquireOrRenew + OnStartedLeading, as client-go's elector and leader.go do it.
-func (r *runner) elect(p *proc) (acquired bool) {
+func (r *runner) elect(p *proc) (acquired bool) { return r.electF(p, false) }
+
+// electF: with tsoFault the timestamp oracle is unreachable from the moment the lock write has committed
+// until the election attempt is over (Describe, if it gets that far, included).
+func (r *runner) electF(p *proc, tsoFault bool) (acquired bool) {
 	lock := p.b.GetResourceLock()
 	p.seq++
 	c0, _, _ := p.tap.Snapshot()
@@ -146,6 +161,10 @@ func (r *runner) elect(p *proc) (acquired bool) {
 	ok := false
 	// the harness's own reading of the engine clock right before the acquiring write
 	clockBefore, _ := r.kv.GetTimestampOracle(context.Background())
+	if tsoFault {
+		p.tap.ArmTsoFaultAfterCommit()
+		defer p.tap.DisarmTsoFault()
+	}
 	switch {
 	case err != nil && apierrors.IsNotFound(err):
 		werr := lock.Create(createRec)
@@ -186,7 +205,7 @@ func (r *runner) elect(p *proc) (acquired bool) {
 					r.fail = fmt.Sprintf("the version parsed from Describe() after the acquiring write (%d) is older than the engine clock read just before that write (%d): a stale timestamp would be installed", version, clockBefore)
 				}
 				p.b.SetCurrentRevision(version) // leader.go:105
-				p.expect = version
+				p.setCurrent(version)
 				eres = lib.App("EAcquired", lib.N(version))
 				acquired = true
 			}
@@ -200,9 +219,9 @@ func (r *runner) elect(p *proc) (acquired bool) {
 		r.lastBase, r.lastMax = version, maxRev
 	}
 	r.steps = append(r.steps, stepObs{
-		Act: fmt.Sprintf("elect proc=%d id=%s", p.n, p.id),
-		Obs: map[string]interface{}{"result": eres, "get": g, "write": wcls, "t1": t1, "t2": t2, "describe": lock.Describe(), "max_stored_revision": maxRev},
-		coqA: lib.App("AElect", lib.N(uint64(p.n)), bytesCoq([]byte(p.id)), bytesCoq(bc), bytesCoq(bu), lib.N(t1), lib.N(t2)),
+		Act:  fmt.Sprintf("elect proc=%d id=%s", p.n, p.id),
+		Obs:  map[string]interface{}{"result": eres, "get": g, "write": wcls, "t1": t1, "t2": t2, "describe": lock.Describe(), "max_stored_revision": maxRev},
+		coqA: lib.App("AElect", lib.N(uint64(p.n)), bytesCoq([]byte(p.id)), bytesCoq(bc), bytesCoq(bu), lib.N(t1), lib.N(t2), lib.Bool(tsoFault)),
 		coqO: lib.App("OElect", eres, g, wcls, dump, optCoq(lockb, lockOK)),
 		outc: "elect:" + strings.SplitN(strings.Trim(eres, "()"), " ", 2)[0],
 	})
@@ -225,6 +244,20 @@ func (r *runner) standbyGet(p *proc) {
 		coqA: lib.App("AGet", lib.N(uint64(p.n)), lib.N(t1)),
 		coqO: lib.App("OGet", cls),
 		outc: "standby-get:" + cls,
+	})
+}
+
+// followerSync: the node serves a read as a follower: revision.SyncReadRevision hands the leader's committed
+// revision to Backend.SetCurrentRevision.
+func (r *runner) followerSync(p *proc, rev uint64) {
+	p.b.SetCurrentRevision(rev)
+	p.setCurrent(rev)
+	r.steps = append(r.steps, stepObs{
+		Act:  fmt.Sprintf("follower proc=%d synced to revision %d (SetCurrentRevision)", p.n, rev),
+		Obs:  "ok",
+		coqA: lib.App("ASync", lib.N(uint64(p.n)), lib.N(rev)),
+		coqO: "OSync",
+		outc: "follower-sync",
 	})
 }
 
@@ -335,9 +368,15 @@ func (r *runner) serve(p *proc, o hop) (class string, hdr uint64) {
 			class, hdr = "HCond", resp.Header.Revision
 		}
 	}
-	p.expect++
-	if !lib.WaitUntil(8*time.Second, func() bool { return p.b.GetCurrentRevision() >= p.expect }) {
-		r.fail = fmt.Sprintf("stalled: committed revision %d never reached %d after %s %s (response %s)", p.b.GetCurrentRevision(), p.expect, o.Kind, o.Key, class)
+	follows := p.deal == p.committed // the sequencer commits slot committed+1: it can only follow a gap-free counter
+	p.deal++
+	if follows {
+		p.committed = p.deal
+		if !lib.WaitUntil(8*time.Second, func() bool { return p.b.GetCurrentRevision() >= p.committed }) {
+			r.fail = fmt.Sprintf("stalled: committed revision %d never reached %d after %s %s (response %s)", p.b.GetCurrentRevision(), p.committed, o.Kind, o.Key, class)
+		}
+	} else {
+		time.Sleep(50 * time.Millisecond) // a node whose dealt counter is ahead of its committed one is wedged (reported through List)
 	}
 	r.steps = append(r.steps, stepObs{
 		Act:  fmt.Sprintf("proc=%d %s %s val=%q prev=%d", p.n, o.Kind, o.Key, o.Val, o.Prev),
@@ -391,6 +430,12 @@ type caseSpec struct {
 	// RestartAt >= 0: after that many requests the leader A stops and a NEW process with the same identity A
 	// is elected and serves the rest of the prefix.
 	RestartAt int `json:"restart_leader_at"`
+	// FollowerSync (needs Standby): B is synced to the leader's committed revision (or one below it) after these many
+	// requests, as a follower that serves reads is
+	FollowerSync []int `json:"follower_sync_after,omitempty"`
+	// TsoOutage: the new leader's first election attempt meets an unreachable timestamp oracle right after its lock
+	// write has committed; it must report the error; the attempt is then repeated without the outage
+	TsoOutage bool `json:"tso_outage_at_takeover,omitempty"`
 }
 
 func engCoq(e string) string {
@@ -467,6 +512,15 @@ func runCase(cs caseSpec, scratch string) (lib.Case, *lib.ImplFailure) {
 		o = resolve(o, live)
 		class, hdr := r.serve(cur, o)
 		track(live, o, class, hdr)
+		for k, at := range cs.FollowerSync {
+			if cs.Standby && at == i+1 && r.fail == "" {
+				rev := cur.b.GetCurrentRevision()
+				if k%2 == 1 && rev > 1 {
+					rev-- // a slightly older answer of the leader
+				}
+				r.followerSync(p2, rev)
+			}
+		}
 	}
 	// stop the old leader; restart / fail over (a standby's Backend was created earlier: nothing is retired then)
 	if !cs.Standby {
@@ -484,7 +538,14 @@ func runCase(cs caseSpec, scratch string) (lib.Case, *lib.ImplFailure) {
 		if p2 == nil {
 			p2 = newProc(2, "B", r.kv)
 		}
-		if r.elect(p2) {
+		if cs.TsoOutage {
+			if r.electF(p2, true) {
+				if r.fail == "" {
+					r.fail = "the acquiring call reported success although the timestamp oracle failed right after its lock write: a hand-over without a timestamp"
+				}
+			}
+		}
+		if r.fail == "" && r.elect(p2) {
 			pre := r.list(p2)
 			n := 0
 			for i, kv := range pre {
@@ -660,7 +721,7 @@ func (m *gaugeMetrics) EmitGauge(name string, v interface{}, t ...metrics.T) err
 // SetCurrentRevision (gauge value == committed revision), the version is a reading of the engine clock
 // not older than the acquisition, and the property itself (revisions above the stored maximum, guarded
 // update works, List sees everything). The elector keeps renewing until the process exits.
-func campaignCase(scratch string, hist []hop) *lib.ImplFailure {
+func campaignCase(scratch string, hist []hop, tsoOutage bool) *lib.ImplFailure {
 	r := &runner{eng: lib.EngMem}
 	kv, _, err := lib.NewEngine(lib.EngMem, scratch)
 	if err != nil {
@@ -725,6 +786,22 @@ func campaignCase(scratch string, hist []hop) *lib.ImplFailure {
 		}
 		earlyDone <- e
 	}()
+	if tsoOutage {
+		// the timestamp oracle becomes unreachable the moment the elector's lock write has committed and stays so
+		// for 300 ms after the first failed read (a winning callback reads Describe() within that time); the real
+		// elector must see its Update fail and acquire on its next retry (about 1 s later), with a real timestamp
+		p2.tap.ArmTsoFaultAfterCommit()
+		go func() {
+			for {
+				if _, _, err := p2.tap.Snapshot(); err == lib.ErrInjected {
+					break
+				}
+				time.Sleep(200 * time.Microsecond)
+			}
+			time.Sleep(300 * time.Millisecond)
+			p2.tap.DisarmTsoFault()
+		}()
+	}
 	go le.Campaign()
 	select {
 	case <-started:
@@ -762,7 +839,7 @@ func campaignCase(scratch string, hist []hop) *lib.ImplFailure {
 	if !le.IsLeader() {
 		return &lib.ImplFailure{What: "campaign: IsLeader() is false after OnStartedLeading", Case: js}
 	}
-	p2.expect = v + 2
+	p2.deal, p2.committed = v+2, v+2
 	pre := r.list(p2)
 	if len(pre) != len(liveKeys(kv)) {
 		return &lib.ImplFailure{What: fmt.Sprintf("campaign: List(0) at the new leader shows %d keys, the store holds %d live keys", len(pre), len(liveKeys(kv))), Case: js}
@@ -791,10 +868,14 @@ func f1Witness() []hop {
 // runCampaignChild runs campaignCase in a child process: Campaign() never returns, its elector keeps
 // renewing, and OnStoppedLeading ends the process through klog.Fatal — the child prints its verdict and
 // exits at once without ever cancelling the elector; the parent only reads the verdict.
-func runCampaignChild(scratch string) (string, *lib.ImplFailure) {
+func runCampaignChild(scratch string, tsoOutage bool) (string, *lib.ImplFailure) {
 	ctx, cancel := context.WithTimeout(context.Background(), 60*time.Second)
 	defer cancel()
-	cmd := exec.CommandContext(ctx, os.Args[0], "-campaign-child", "-scratch", scratch)
+	cargs := []string{"-campaign-child", "-scratch", scratch}
+	if tsoOutage {
+		cargs = append(cargs, "-campaign-tso-outage")
+	}
+	cmd := exec.CommandContext(ctx, os.Args[0], cargs...)
 	cmd.Stderr = nil
 	out, err := cmd.Output()
 	i := bytes.LastIndex(out, []byte("CAMPAIGN-VERDICT "))
@@ -818,9 +899,10 @@ func main() {
 	lib.QuietLogs()
 	lib.ElInstallHook()
 	child := flag.Bool("campaign-child", false, "internal: run the real Campaign() once and print the verdict")
+	childOutage := flag.Bool("campaign-tso-outage", false, "internal: with a timestamp-oracle outage right after the elector's lock write")
 	args := lib.ParseArgs()
 	if *child {
-		f := campaignCase(args.Scratch, f1Witness())
+		f := campaignCase(args.Scratch, f1Witness(), *childOutage)
 		b, _ := json.Marshal(map[string]interface{}{"ok": f == nil, "fail": f})
 		fmt.Printf("\nCAMPAIGN-VERDICT %s\n", b)
 		os.Stdout.Sync()
@@ -868,23 +950,46 @@ func main() {
 		// writing more, then the standby taking over: the base must be the clock AT take-over
 		add(caseSpec{Engine: eng, History: witness, Stop: len(witness), Kind: "corpus-standby-takeover", Standby: true, RestartAt: 6})
 		add(caseSpec{Engine: eng, History: witness, Stop: len(witness), Kind: "corpus-leader-restart", RestartAt: 6})
+		// the new leader was a follower that served reads: its revision counter has been set k >= 1 times before
+		add(caseSpec{Engine: eng, History: witness, Stop: len(witness), Kind: "corpus-follower-synced", Standby: true, RestartAt: -1, FollowerSync: []int{1}})
+		add(caseSpec{Engine: eng, History: witness, Stop: len(witness), Kind: "corpus-follower-synced", Standby: true, RestartAt: -1, FollowerSync: []int{1, 4, 12}})
+		add(caseSpec{Engine: eng, History: drift, Stop: len(drift), Kind: "corpus-follower-synced", Standby: true, RestartAt: 2, FollowerSync: []int{2, 3}})
+		// the timestamp oracle is unreachable right after the take-over write
+		add(caseSpec{Engine: eng, History: witness, Stop: 3, Kind: "corpus-tso-outage", RestartAt: -1, TsoOutage: true})
+		add(caseSpec{Engine: eng, History: drift, Stop: len(drift), Kind: "corpus-tso-outage", Standby: true, RestartAt: -1, TsoOutage: true, FollowerSync: []int{1}})
 		for h := 0; h < nHist; h++ {
 			hist := genHistory(rnd, hLen)
 			for i := 0; i <= len(hist); i++ {
 				add(caseSpec{Engine: eng, History: hist, Stop: i, Kind: "history", RestartAt: -1})
 				if i >= 2 && i%3 == 0 {
 					add(caseSpec{Engine: eng, History: hist, Stop: i, Kind: "history-standby", Standby: true, RestartAt: rnd.Intn(i)})
+					add(caseSpec{Engine: eng, History: hist, Stop: i, Kind: "history-follower-synced", Standby: true, RestartAt: -1,
+						FollowerSync: []int{1 + rnd.Intn(i), 1 + rnd.Intn(i), i}, TsoOutage: rnd.Chance(1, 3)})
 				}
 			}
 		}
 	}
 
 	// every tier: the real Campaign() once (child process, about 1-2 s)
-	campaign, cf := runCampaignChild(args.Scratch)
-	if cf != nil {
-		cf.CaseID = len(cases)
-		fails = append(fails, *cf)
-		campaign = "failed: " + cf.What
+	type cres struct {
+		s string
+		f *lib.ImplFailure
+	}
+	ch1, ch2 := make(chan cres, 1), make(chan cres, 1)
+	go func() { s, f := runCampaignChild(args.Scratch, false); ch1 <- cres{s, f} }()
+	go func() { s, f := runCampaignChild(args.Scratch, true); ch2 <- cres{s, f} }()
+	campaign := ""
+	for k, ch := range []chan cres{ch1, ch2} {
+		c := <-ch
+		label := []string{"plain: ", "with a timestamp-oracle outage right after the elector's lock write: "}[k]
+		if c.f != nil {
+			c.f.CaseID = len(cases)
+			c.f.What = label + c.f.What
+			fails = append(fails, *c.f)
+			campaign += label + "failed: " + c.f.What + "; "
+		} else {
+			campaign += label + c.s + "; "
+		}
 	}
 
 	header := "From Coq Require Import String.\nFrom KB Require Import Model.C15Cases.\n" + strings.Join(dictDefs, "\n")
